@@ -2,6 +2,7 @@ package ledgersim
 
 import (
 	"fmt"
+	"os"
 	"sort"
 	"strings"
 
@@ -45,6 +46,8 @@ var atomPoisons = []string{"overspend", "min-balance", "app-err", "asset-not-opt
 var atomDirect = map[string]bool{"wrong-group-id": true, "duplicate-member": true, "fee-shortfall": true, "lease-conflict": true, "overspend": true, "min-balance": true, "app-err": true,
 	"asset-not-opted-in": true, "wrong-authorizer": true, "inner-overspend": true, "box-unavailable": true, "schema-overflow": true}
 
+var dbgAtom = os.Getenv("VERIF_DBG_ATOM") != ""
+
 type atomMarker struct {
 	Kind string // "global" | "box"
 	App  basics.AppIndex
@@ -72,6 +75,7 @@ type atomObs struct {
 	markers  []atomMarker
 	leases   map[basics.Round][]atomLease
 	assets   *assetObs
+	level    uint64 // rewards level of the block under construction
 	haveView bool
 }
 
@@ -199,7 +203,7 @@ func (b *atomBuild) plainPay() *txntest.Txn {
 }
 
 // early returns 1-2 members that succeed on their own and change state.
-func (b *atomBuild) early(noInner bool) []*txntest.Txn {
+func (b *atomBuild) early(noInner bool, room int) []*txntest.Txn {
 	g, st := b.g, b.g.st
 	cost := mbCosts{g.proto}
 	kind := []string{"pay", "gput", "gput", "bcreate", "bcreate", "axfer", "inner-pay"}[g.n(7)]
@@ -259,6 +263,9 @@ func (b *atomBuild) early(noInner bool) []*txntest.Txn {
 		name := fmt.Sprintf("atom%d", *g.uniq+1)
 		size := uint64(g.n(64))
 		need := req + cost.box(uint64(len(name)), size) + 300_000
+		if bal < need && room < 2 {
+			break // no room for the funding member: fall back to a payment
+		}
 		if bal < need {
 			out = append(out, g.xbase(&txntest.Txn{Type: protocol.PaymentTx, Sender: snd.Addr, Receiver: addr, Amount: need - bal + uint64(g.n(500_000))}))
 			b.info.Early = append(b.info.Early, "fund-app")
@@ -319,7 +326,7 @@ func (b *atomBuild) early(noInner bool) []*txntest.Txn {
 func (o *atomObs) poisoned(s *Sim, g *Gen, hdr *bookkeeping.BlockHeader, idx map[basics.Address]mbRes) (*Candidate, []basics.Address) {
 	st := g.st
 	kind := atomPoisons[g.n(len(atomPoisons))]
-	b := &atomBuild{o: o, s: s, g: g, level: hdr.RewardsLevel, avoid: map[basics.Address]bool{}, idx: idx}
+	b := &atomBuild{o: o, s: s, g: g, level: o.level, avoid: map[basics.Address]bool{}, idx: idx}
 	b.info.Kind = kind
 	cost := mbCosts{g.proto}
 	var critical []basics.Address
@@ -352,7 +359,7 @@ func (o *atomObs) poisoned(s *Sim, g *Gen, hdr *bookkeeping.BlockHeader, idx map
 		b.avoid[snd.Addr] = true
 		pt.Receiver = b.receiver()
 		pt.FillDefaults(g.proto)
-		bal := g.balAt(snd.Addr, hdr.RewardsLevel)
+		bal := g.balAt(snd.Addr, o.level)
 		if bal < feeOf(pt)+left {
 			return nil, nil
 		}
@@ -438,15 +445,9 @@ func (o *atomObs) poisoned(s *Sim, g *Gen, hdr *bookkeeping.BlockHeader, idx map
 	}
 	var txs []*txntest.Txn
 	for len(txs) < pidx {
-		e := b.early(kind == "fee-shortfall")
+		e := b.early(kind == "fee-shortfall", pidx-len(txs))
 		if e == nil {
 			return nil, nil
-		}
-		if len(txs)+len(e) > pidx {
-			e = e[len(e)-(pidx-len(txs)):] // no room for the funding member
-			if len(b.info.Early) > 0 && len(e) == 1 && len(b.info.Markers) > 0 && b.info.Early[len(b.info.Early)-1] == "bcreate" {
-				// the box creation may now fail for lack of funds; it stays a good-faith member
-			}
 		}
 		txs = append(txs, e...)
 	}
@@ -554,6 +555,7 @@ func (o *atomObs) ExtraGroups(s *Sim, g *Gen, ev *eval.BlockEvaluator, hdr *book
 		}
 	}
 	idx := mbIndex(g.st)
+	o.level = evalRewardsLevel(ev)
 	for i, n := 0, 1+g.n(4); i < n; i++ {
 		c, critical := o.poisoned(s, g, hdr, idx)
 		if c == nil {
@@ -567,6 +569,11 @@ func (o *atomObs) ExtraGroups(s *Sim, g *Gen, ev *eval.BlockEvaluator, hdr *book
 
 func (o *atomObs) GroupResult(s *Sim, ev *eval.BlockEvaluator, c Candidate, stage string, err error) {
 	info, ok := c.Info.(atomInfo)
+	if dbgAtom {
+		for _, t := range c.Txns {
+			s.log.Add("dbg cand %s %x", t.ID(), crypto.Hash(protocol.Encode(&t)))
+		}
+	}
 	if !ok || !c.MustReject {
 		o.lastFP = atomFingerprint(ev)
 		return
@@ -580,6 +587,9 @@ func (o *atomObs) GroupResult(s *Sim, ev *eval.BlockEvaluator, c Candidate, stag
 	if err != nil {
 		for i, id := range ids {
 			if strings.Contains(err.Error(), id.String()) {
+				if ids[info.Idx] == id {
+					i = info.Idx // a duplicated member shares its id with the member it copies
+				}
 				failedAt = fmt.Sprint(i)
 				switch {
 				case i == info.Idx:
@@ -594,7 +604,11 @@ func (o *atomObs) GroupResult(s *Sim, ev *eval.BlockEvaluator, c Candidate, stag
 			s.stat("c19.failed_at_group_level", 1)
 		}
 	}
-	s.log.Add("c19 poisoned group kind=%s size=%d poison-at=%d early=%v -> stage=%q rejected=%v failed-at=%s payset=%d", info.Kind, len(c.Txns), info.Idx, info.Early, stage, err != nil, failedAt, ev.PaySetSize())
+	why := ""
+	if err != nil {
+		why = classify(err)
+	}
+	s.log.Add("c19 poisoned group kind=%s size=%d poison-at=%d early=%v -> stage=%q rejected=%v failed-at=%s why=%s payset=%d", info.Kind, len(c.Txns), info.Idx, info.Early, stage, err != nil, failedAt, why, ev.PaySetSize())
 	if err == nil {
 		s.violate("C19", "poisoned-group-accepted", info.Kind, fmt.Sprintf("a group of %d whose member %d carries poison %q was accepted: %v", len(c.Txns), info.Idx, info.Kind, ids))
 		return
